@@ -27,6 +27,7 @@ from openfisca_core.simulations import SimulationBuilder
 SCRATCH = f"/dev/shm/dsim-yaml-{os.getpid()}"
 REFORMS = ["dsim.yaml_pkg.reforms.add_bonus", "dsim.yaml_pkg.reforms.neutralize_first", "dsim.yaml_pkg.reforms.add_flag"]
 EXTENSIONS = ["dsim.yaml_pkg.ext_a", "dsim.yaml_pkg.ext_b"]
+NO_SUCH_EXTENSION = "dsim.yaml_pkg.ext_that_is_not_installed"
 EXTRA_VARS = {"dsim.yaml_pkg.reforms.add_bonus": ("r_bonus", "2018-01"), "dsim.yaml_pkg.reforms.add_flag": ("r_flag", "2018-01"),
               "dsim.yaml_pkg.ext_a": ("x_a", "2018-01"), "dsim.yaml_pkg.ext_b": ("x_b", "2018")}
 
@@ -83,6 +84,19 @@ def generate_yaml(seed, tier, st):
             if key in EXTRA_VARS and chance(ir, 0.7):
                 t["outputs"].append({"var": EXTRA_VARS[key][0], "layout": "variable", "place": pick(ir, ["at", "beyond"]), "with_period": True, "sign": 1, "extra": EXTRA_VARS[key][1]})
         tests.append(t)
+    if len(tests) >= 3 and chance(ir, 0.2):
+        # two tests declare, in the same words, an extension that cannot be loaded: neither
+        # can pass - however right their expectations would be on the system the runner gets
+        # as far as building (the first refusal must not leave anything behind for the second)
+        a, b = ir.sample(range(len(tests)), 2)
+        decl = [pick(ir, EXTENSIONS), NO_SUCH_EXTENSION]
+        for k in (a, b):
+            tests[k]["reforms"] = []
+            tests[k]["extensions"] = list(decl)
+            tests[k]["unloadable"] = True
+            for o in tests[k]["outputs"]:
+                o["place"] = "at"
+                o.pop("also", None)
     orr = st["ops"]
     order2 = list(range(n))
     orr.shuffle(order2)
@@ -516,7 +530,8 @@ def system_for(world: World, base, t):
     for r in t["reforms"]:
         tbs = tbs.apply_reform(r)
     for e in t["extensions"]:
-        tbs.load_extension(e)
+        if e != NO_SUCH_EXTENSION:  # (expectations are written against what does load)
+            tbs.load_extension(e)
     return tbs
 
 
@@ -555,6 +570,10 @@ def run_yaml(scn) -> Result:
             return res
         names = [b[0]["name"] for b in built]
         want = {b[0]["name"]: b[1] for b in built}
+        for t in scn["tests"]:
+            if t.get("unloadable") and t["name"] in want:
+                want[t["name"]] = False  # a test whose declared extension cannot be loaded cannot pass
+                res.count("probe:test_declares_an_extension_that_cannot_be_loaded")
         by_name = {b[0]["name"]: b for b in built}
         seen = {}
         for oi, order in enumerate(scn["orders"]):
